@@ -42,7 +42,8 @@ FAMS = {"spin3": ("S", "S", "S"), "eph3": ("E", "B", "E"), "mixed3": ("V", "B2",
 def BOUND(tier):
     if tier == "quick":
         return {"A": "plane trees <= 4 nodes, m = 3 basis sets (spin; eph and multi-dof families on trees <= 3 nodes); all k<=2 tables on trees <= 3 nodes, single rows + hand-shaped tables on 4 nodes", "B": "2..6 basis sets"}
-    return {"A": "plane trees <= 5 nodes, m = 3 and 4 basis sets, three families", "B": "2..7 basis sets"}
+    return {"A": "plane trees <= 4 nodes with the complete k<=2 table enumeration for m = 3 (three families), <= 3 nodes for m = 4; single rows + hand-shaped tables on "
+                 "4-node trees (m = 4, every third distribution) and 5-node trees (spin, m = 3)", "B": "2..7 basis sets"}
 
 
 @functools.lru_cache(maxsize=64)
@@ -102,13 +103,15 @@ def cases_(tier, seed):
                 continue
             if m == 4 and N > 4:
                 continue
+            if not quick and N == 5 and famname != "spin3":
+                continue       # five-node trees: spin family only (thorough budget)
             for parent in plane_trees(N):
                 for dist in TR.distributions(m, N):
                     if m == 4 and N == 4 and (sum(len(g) * (i + 1) for i, g in enumerate(dist)) % 3):
                         continue   # m=4, N=4: every third distribution (stated in BOUND) to stay inside the thorough budget
                     # the complete k<=2 table enumeration runs on trees up to 3 nodes (quick) / 4 nodes (thorough); larger trees
                     # get every single-row table and the hand-shaped tables
-                    yield {"k": "A", "fam": famname, "parent": parent, "groups": [list(g) for g in dist], "small": N > (3 if quick else 4)}
+                    yield {"k": "A", "fam": famname, "parent": parent, "groups": [list(g) for g in dist], "small": N > (3 if (quick or m == 4) else 4)}
     for nb in range(2, (6 if quick else 7) + 1):
         yield {"k": "B", "ctor": "linear", "nb": nb}
         yield {"k": "B", "ctor": "binary", "nb": nb}
